@@ -565,6 +565,7 @@ func FuzzC16Decode(f *testing.F) {
 	f.Add([]byte("node_groups:\n- {}\n- name: 1e3\n  min_nodes: 0x10\n"))
 	f.Add([]byte(strings.Repeat(" ", 4097) + `{"node_groups":[{"name":"late"}]}`))
 	f.Add([]byte("\xff\xfe{}"))
+	f.Add([]byte(`{"node_groups":[{"Aws":{"instAnCe_tYpe_overrides":[]}}]}`)) // case-insensitive keys, empty list
 	f.Fuzz(func(t *testing.T, data []byte) {
 		opts, err := controller.UnmarshalNodeGroupOptions(bytes.NewReader(data))
 		if err != nil {
@@ -583,6 +584,16 @@ func FuzzC16Decode(f *testing.F) {
 		}
 		if len(opts) == 0 && len(again) == 0 {
 			return
+		}
+		for i := range opts { // an empty list and an absent list are the same configuration
+			if len(opts[i].AWS.InstanceTypeOverrides) == 0 {
+				opts[i].AWS.InstanceTypeOverrides = nil
+			}
+		}
+		for i := range again {
+			if len(again[i].AWS.InstanceTypeOverrides) == 0 {
+				again[i].AWS.InstanceTypeOverrides = nil
+			}
 		}
 		if !reflect.DeepEqual(opts, again) {
 			t.Fatalf("VIOLATION C16:json-roundtrip-differs\nfirst:  %+v\nsecond: %+v", opts, again)
